@@ -115,6 +115,9 @@ func runC05(c *Ctx) {
 	// --- R8 bufferTranslate loop -------------------------------------------------
 	c.checkBufferTranslate()
 
+	// --- R9 TranslateByReference: all-gap reference codon ------------------------
+	c.checkRefCodonAllGap()
+
 	L.Note("packages analysed: %d (all of /repo), tables evaluated from align/const.go", len(c.P.Pkgs))
 }
 
@@ -591,4 +594,146 @@ func (c *Ctx) checkTranslateCodonConsts() {
 func (c *Ctx) checkBufferTranslate() {
 	// Implemented with the bounds engine (E2): see e2_bounds.go
 	c.checkBufferTranslateLoop()
+}
+
+// checkRefCodonAllGap: in TranslateByReference the branch that emits a gap
+// column for the reference is entered only when the reference row holds GAP at
+// all three indices of the current codon window.
+func (c *Ctx) checkRefCodonAllGap() {
+	L := c.L
+	L.Rule("refcodon-allgap", "in TranslateByReference the block that writes gaps for the reference row is reached only through the true branches of three comparisons `ref[idx[k]] == GAP`, one for each k in {0,1,2} of the codon window; a window that still holds a reference nucleotide is never treated as an all-gap codon")
+	r := c.fn("align", "*align", "TranslateByReference")
+	if !r.ok() {
+		return
+	}
+	fn := r.F
+	gap := int64('-')
+	if g := constByName(c.P.Pkg("align"), "GAP"); g != nil {
+		if k, ok := cInt(g); ok {
+			gap = k
+		}
+	}
+	// comparisons ref[idx[k]] == GAP
+	type cmp struct {
+		bo *ssa.BinOp
+		k  int64
+	}
+	var cmps []cmp
+	allInstrs(fn, func(in ssa.Instruction) {
+		bo, ok := in.(*ssa.BinOp)
+		if !ok || bo.Op != token.EQL {
+			return
+		}
+		if k, ok := constInt(bo.Y); !ok || k != gap {
+			return
+		}
+		u, ok := bo.X.(*ssa.UnOp)
+		if !ok {
+			return
+		}
+		ia, ok := u.X.(*ssa.IndexAddr)
+		if !ok {
+			return
+		}
+		iu, ok := ia.Index.(*ssa.UnOp)
+		if !ok {
+			return
+		}
+		iia, ok := iu.X.(*ssa.IndexAddr)
+		if !ok {
+			return
+		}
+		if k, ok := constInt(iia.Index); ok {
+			cmps = append(cmps, cmp{bo, k})
+		}
+	})
+	// the all-gap branch: first block (in dominance order) that is reached through true edges of comparisons with k = 0,1,2
+	found := false
+	for _, b := range fn.Blocks {
+		have := map[int64]bool{}
+		for d := b; d != nil; d = d.Idom() {
+			for _, p := range d.Preds {
+				ifi, ok := p.Instrs[len(p.Instrs)-1].(*ssa.If)
+				if !ok || p.Succs[0] != d || len(d.Preds) != 1 {
+					continue
+				}
+				for _, cm := range cmps {
+					if ifi.Cond == ssa.Value(cm.bo) {
+						have[cm.k] = true
+					}
+				}
+			}
+		}
+		if len(have) == 0 {
+			continue
+		}
+		// is this the block that starts the gap-writing branch? it must not itself end in one of the comparisons
+		if ifi, ok := b.Instrs[len(b.Instrs)-1].(*ssa.If); ok {
+			isCmp := false
+			for _, cm := range cmps {
+				if ifi.Cond == ssa.Value(cm.bo) {
+					isCmp = true
+				}
+			}
+			if isCmp {
+				continue
+			}
+		}
+		// only consider the outermost such block (dominated by all three or missing one)
+		if len(b.Preds) == 1 {
+			pifi, ok := b.Preds[0].Instrs[len(b.Preds[0].Instrs)-1].(*ssa.If)
+			if ok {
+				last := false
+				for _, cm := range cmps {
+					if pifi.Cond == ssa.Value(cm.bo) && b.Preds[0].Succs[0] == b {
+						last = true
+					}
+				}
+				if !last {
+					continue
+				}
+			} else {
+				continue
+			}
+		} else {
+			continue
+		}
+		// b is entered directly on the true edge of the last comparison of a chain: a chain of 3 is the all-gap test;
+		// chains of 1 belong to the skipping loops (`for … ref[idx[k]] == GAP`) and are inside loops
+		if innermostLoopOf(naturalLoops(fn), b) != nil {
+			inner := innermostLoopOf(naturalLoops(fn), b)
+			if inner.Head != nil && len(have) == 1 && inner.Blocks[b] && inner.Head.Dominates(b) {
+				// skipping loop body
+				skip := false
+				for _, bk := range inner.Backs {
+					if bk == b {
+						skip = true
+					}
+				}
+				if skip {
+					continue
+				}
+			}
+		}
+		if len(have) == 1 {
+			continue
+		}
+		found = true
+		ok3 := have[0] && have[1] && have[2]
+		L.Check(ok3, "refcodon-allgap", r.label, "all-gap reference codon test", c.P.Pos(b.Instrs[0].Pos()), "guarded by ref[idx[0]], ref[idx[1]] and ref[idx[2]] == GAP",
+			fmt.Sprintf("the gap-column branch is entered with only positions %v of the codon window tested: a window that still holds a reference nucleotide is emitted as a gap and the rest of the reference is read out of frame", keysInt(have)))
+	}
+	if !found {
+		L.Bad("refcodon-allgap", r.label, "all-gap reference codon test", c.P.Pos(fn.Pos()), "no branch guarded by comparisons of the reference codon positions with GAP was found")
+	}
+	L.Floor("refcodon-allgap", 1, "one test")
+}
+
+func keysInt(m map[int64]bool) []int64 {
+	var out []int64
+	for k := range m {
+		out = append(out, k)
+	}
+	sort.Slice(out, func(i, j int) bool { return out[i] < out[j] })
+	return out
 }
